@@ -59,6 +59,7 @@ type caseRun struct {
 	vcA, vcB   bool
 	pendingBlk bool // a candidate's account was (un)blocked since A last recomputed the committee
 	knownShape bool
+	failed     bool
 	gov     bool // governance-focused profile: elected committee, quiet epochs, block/unblock of candidates
 	lastCmt string
 }
@@ -94,10 +95,16 @@ func main() {
 func (c *caseRun) cleanup() {
 	for _, n := range []*chainx.Node{c.a, c.b} {
 		if n != nil {
-			func() {
+			done := make(chan struct{})
+			go func() {
+				defer close(done)
 				defer func() { _ = recover() }()
 				n.Stop()
 			}()
+			select {
+			case <-done:
+			case <-time.After(10 * time.Second): // a node wedged by a panic in storeBlock: leave it behind
+			}
 			n.Backend.Remove()
 		}
 	}
@@ -264,7 +271,26 @@ func (c *caseRun) run() {
 		// ---- B's schedule before the block
 		forced := script != nil && script.restartBefore(h)
 		if (script == nil && s.Intn(16) < pRestart) || forced {
-			if err := c.b.Restart(); err != nil {
+			var change func(*config.Blockchain)
+			if script == nil && s.Chance(1, 3) {
+				// Verification options are not persisted and may change across a restart. (RemoveUntraceableBlocks
+				// may not: it selects the MPT node format, a reopened database then fails with "key not found";
+				// the property quantifies over configurations, not over configuration changes, so that is not
+				// an oracle here.)
+				flip := 1 + s.Intn(3)
+				change = func(cfg *config.Blockchain) {
+					switch flip {
+					case 1:
+						cfg.SkipBlockVerification = !cfg.SkipBlockVerification
+					case 2:
+						cfg.VerifyTransactions = !cfg.VerifyTransactions
+					default:
+						cfg.SaveStorageBatch = !cfg.SaveStorageBatch
+					}
+				}
+				o.Count("B.restart-with-changed-local-config")
+			}
+			if err := c.b.RestartWith(change); err != nil {
 				o.Fail("restart-failed", c.k, "B cannot restart at height %d: %v [%s]", h-1, err, c.desc)
 				return
 			}
@@ -283,15 +309,23 @@ func (c *caseRun) run() {
 		if script == nil && s.Intn(16) < pJunk {
 			c.junk(txs)
 		}
-		if c.gcSleep && h%11 == 0 {
+		if c.gcSleep && h%11 == 0 && h <= 44 {
 			time.Sleep(1100 * time.Millisecond) // let B's persist timer fire: that is the only trigger of the GC
 			o.Count("B.gc-timer-waits")
 		}
 
 		// ---- add to A (reference), flush A
 		o.Line(fmt.Sprintf("block %d %d", h, blk.PrimaryIndex), "ok")
-		if err := c.a.BC.AddBlock(blk); err != nil {
-			panic(fmt.Errorf("generator produced a block A rejects at %d: %w [%s]", h, err, opKinds(ops)))
+		if err := safeAddBlock(c.a, blk); err != nil {
+			if pe, ok := err.(*panicErr); ok {
+				// a panic of the real code while applying a block made of valid transactions
+				o.Fail("addblock-panic", c.k, "replica A panicked in AddBlock at height %d: %s [%s] history=%s ops=%s", h, pe.msg, c.desc, c.history(), opKinds(ops))
+				return
+			}
+			// The block was built against A's own state: a rejection means A's caches (fees, blocked accounts,
+			// balances seen by verification) disagree with A's storage, which the generator reads.
+			o.Fail("reference-rejects-own-block", c.k, "replica A rejects a block built from its own state at height %d: %v [%s] history=%s ops=%s", h, err, c.desc, c.history(), opKinds(ops))
+			return
 		}
 		if err := c.a.Flush(); err != nil {
 			panic(err)
@@ -344,7 +378,12 @@ func (c *caseRun) run() {
 		sig = append(sig, opKinds(ops))
 
 		// ---- add to B and compare
-		errB := c.b.BC.AddBlock(blk)
+		errB := safeAddBlock(c.b, blk)
+		if pe, ok := errB.(*panicErr); ok {
+			rec.ops = ops
+			o.Fail("addblock-panic", c.k, "replica B panicked in AddBlock at height %d: %s [%s] history=%s", h, pe.msg, c.desc, c.history())
+			return
+		}
 		if errB != nil {
 			c.diverged(h, "addblock", "A accepted, B: "+errB.Error(), "")
 			return
@@ -383,6 +422,28 @@ func (c *caseRun) run() {
 		}
 	}
 	o.Line("final", abstractObs(w, c.a.BC)+" | "+abstractObs(w, c.b.BC))
+	// state roots of past heights, where B still has them (no KeepOnlyLatestState / GC)
+	if !c.failed {
+		for hh := uint32(1); hh <= uint32(nblocks); hh++ {
+			rb, err := c.b.BC.GetStateRoot(hh)
+			if err != nil {
+				continue
+			}
+			ra, err := c.a.BC.GetStateRoot(hh)
+			if err == nil && ra.Root != rb.Root {
+				c.diverged(uint32(nblocks), fmt.Sprintf("historic-root[%d]", hh), ra.Root.StringLE(), rb.Root.StringLE())
+				break
+			}
+			o.Count("historic-roots-compared")
+		}
+	}
+	// evidence that B's garbage collector really ran: the state of height 2 is no longer readable
+	// (blocks themselves are only removed in batches of 2000, out of reach here)
+	if sr, err := c.b.BC.GetStateRoot(2); err == nil {
+		if _, err := c.b.BC.GetStateModule().GetState(sr.Root, []byte{0xfb, 0xff, 0xff, 0xff, 14}); err != nil {
+			o.Count("B.old-state-unreadable(gc/keepLatest)")
+		}
+	}
 	o.Seen(fmt.Sprintf("%d/%d/%s", csize, restarts, strings.Join(sig, "|")))
 	if c.k < len(corpus)+3 {
 		o.Sample(fmt.Sprintf("case %d: %s; %d blocks, %d restarts of B; ops: %s", c.k, c.desc, nblocks, restarts, strings.Join(sig, " | ")))
@@ -419,6 +480,20 @@ func neoVotesEvent(aer *state.AppExecResult) bool {
 		}
 	}
 	return false
+}
+
+type panicErr struct{ msg string }
+
+func (p *panicErr) Error() string { return "panic: " + p.msg }
+
+// safeAddBlock: a panic of the real code is an observation, not a harness crash.
+func safeAddBlock(n *chainx.Node, b *block.Block) (err error) {
+	defer func() {
+		if r := recover(); r != nil {
+			err = &panicErr{msg: fmt.Sprint(r)}
+		}
+	}()
+	return n.BC.AddBlock(b)
 }
 
 func opKinds(ops []*op) string {
@@ -467,6 +542,7 @@ func (c *caseRun) epochStart(h uint32) uint32 { return h - h%uint32(c.csize) }
 
 // diverged reports a divergence of the two replicas at height h.
 func (c *caseRun) diverged(h uint32, name, va, vb string) {
+	c.failed = true
 	cls := classOf(name)
 	// Shape of the known finding (DESIGN §6 item 13): at the end of some epoch replica A did not recompute the
 	// next committee (no vote-changing NEO event in the epoch) while B did (it had been restarted), and a
@@ -682,7 +758,7 @@ func (c *caseRun) genOp() *op {
 		return w.opDesignate(roles[r.Intn(len(roles))], l)
 	case 9:
 		which := r.Intn(6)
-		v := []int64{int64(1 + r.Intn(10*100000000)), int64(1 + r.Intn(2000_0000_0000)), int64(1 + r.Intn(50)), int64(1 + r.Intn(1_0000_0000)), int64(r.Intn(1_0000_0000)), int64(1 + r.Intn(30000))}[which]
+		v := []int64{int64(1 + r.Intn(10*100000000)), int64(1 + r.Intn(2000_0000_0000)), int64(1 + r.Intn(8)), int64(1 + r.Intn(1_0000_0000)), int64(r.Intn(1_0000_0000)), int64(1 + r.Intn(30000))}[which]
 		return w.opNativeSetting(which, v)
 	case 10:
 		si := r.Intn(len(w.slots))
